@@ -117,16 +117,7 @@ def check(ctx):
         ctx.require(not isinstance(post, Ext) and Lin.of(post) == Lin.of(E).add(P), "C16.O2", "stored expiry' == E + P", f"after wait() the stored expiry is {post!r}, expected E + P (path {cond or 'unconditional'})", site=site("wait"), key="C16.O2|store")
         ctx.require(not cond, "C16.O2", "wait() on a live object does not branch on time", f"wait() branches on {cond}: the alarm time depends on when the loop body finished", site=site("wait"), key="C16.O2|branch")
     # who may write the expiry
-    import ast
-
-    writers = set()
-    for name, f in K.ns.items():
-        node = getattr(fn.func_of(f), "node", None)
-        if node is None:
-            continue
-        for n in ast.walk(node):
-            if isinstance(n, ast.Attribute) and isinstance(n.ctx, ast.Store) and n.attr == ef:
-                writers.add(name)
+    writers = fn.effective_writers(K, ef)
     ctx.require(writers <= {"__init__", "wait"}, "C16.O2", f"expiry written only by {sorted(writers)}", f"the stored expiry is also written by {sorted(writers - {'__init__', 'wait'})}", site=site("wait"), key="C16.O2|writers")
     # ---- M1 typestate
     seqs = [("free",), ("free", "wait"), ("free", "free"), ("__exit__", "wait"), ("__del__", "wait"), ("wait", "free", "wait", "free"), ("__exit__", "free")]
